@@ -50,6 +50,10 @@ def make_query(name: str, arity: int, position: str) -> str:
         args = ['""'] if name == "nan" else ['e.Muons("muons").Count()', "2", "3"][:arity]
         return f"ds.Select(lambda e: {name}({', '.join(args)}))"
     call = f"{name}({', '.join(arg_exprs(name, arity))})"
+    if position == "nested" and name != "nan":
+        # a documented function whose arguments are themselves documented functions, inside another one
+        inner = [a if a.isdigit() else f"fabs({a})" for a in arg_exprs(name, arity)]
+        call = f"cosh({name}({', '.join(inner)}))"
     if position == "arith":
         call = f"({call} * 2 + m.pt()) / 3"
     return f'ds.Select(lambda e: e.Muons("muons").Select(lambda m: {call}))'
@@ -118,7 +122,7 @@ def check(tier: str, seed: int, t0: float, build: core.BuildStatus) -> int:
             audit = [[n, "?", [], "false", []] for n in parse_readme()]
         except Exception:  # noqa: BLE001
             audit = []
-    positions = ["alone", "arith", "intarg"]
+    positions = ["alone", "arith", "intarg", "nested"]
     distinct = set()
     per_name: Dict[str, Dict[str, Any]] = {}
     for ent in audit:
@@ -154,6 +158,11 @@ def check(tier: str, seed: int, t0: float, build: core.BuildStatus) -> int:
                         what=f"{name}(...) is emitted as {other[0] if other else 'no call'} on {backend}" + (f" ({hint})" if hint else ""),
                         replay={**replay, "differs": hint}))
                     continue
+                if pos == "nested" and name != "nan" and not ({"std::cosh", "std::fabs"} <= set(calls)):
+                    oc.violations.append(core.Violation(
+                        key=f"c12:nested-call-lost:{name}", what=f"cosh({name}(fabs(..))) on {backend}: emitted calls {calls} do not contain all three functions",
+                        replay=replay))
+                    continue
                 if '#include "cmath"' not in text and "#include <cmath>" not in text:
                     oc.violations.append(core.Violation(
                         key=f"c12:no-header:{name}", what=f"{name}: generated {main} on {backend} does not include cmath", replay=replay))
@@ -180,7 +189,7 @@ def check(tier: str, seed: int, t0: float, build: core.BuildStatus) -> int:
                         continue
                 oc.traces_validated_against_impl += 1
     oc.distinct_nontrivial = len(distinct)
-    oc.rule = ("every documented name (README list, regenerated) x 3 backends x {standalone, inside (f(..)*2+x)/3, with integer-typed arguments (column must be double)}; arity from the cmath signature table; "
+    oc.rule = ("every documented name (README list, regenerated) x 3 backends x {standalone, inside (f(..)*2+x)/3, with integer-typed arguments (column must be double), nested cosh(f(fabs(..)))}; arity from the cmath signature table; "
                "non-trivial = every query (each goes through name resolution, emission and include handling); distinct by query text")
     oc.samples = [make_query("atan2", 2, "arith"), make_query("floor", 1, "alone"), make_query("nan", 1, "alone")]
     oc.exhaustive = True
